@@ -1,0 +1,20 @@
+//go:build verif
+
+package window
+
+// Exported wrappers around the unexported key encoders of the keyed windows (C04/C09).
+// Add-only; compiled only with -tags verif.
+
+// VerifGetKey is (*CountingWindow).getKey.
+func (cw *CountingWindow) VerifGetKey(data any) string { return cw.getKey(data) }
+
+// VerifSessionKey is extractSessionCompositeKey.
+func VerifSessionKey(data any, keys []string) string {
+	return extractSessionCompositeKey(data, keys)
+}
+
+// VerifGetKey is (*GlobalWindow).getKeyAndValues (key part).
+func (gw *GlobalWindow) VerifGetKey(data map[string]any) string {
+	k, _ := gw.getKeyAndValues(data)
+	return k
+}
